@@ -510,6 +510,9 @@ def sweep_cases(tier):
                     continue
                 out.append({'sweep': sk, 'design': d, 'wall': wall,
                             'L': 0.06 if tier == 'quick' else 0.12})
+        # a long march of very small steps (wall temperature changes by a few hundredths of a kelvin per step)
+        for wall in ('none', 'flow'):
+            out.append({'sweep': 'r1', 'design': d, 'wall': wall, 'fine': True, 'L': 0.06 if tier == 'quick' else 0.12})
         for sk in ('multi', 'multi2', 'r2', 'lf-simple'):
             for form in ('outer-first', 'ducts-reversed', 'descending'):
                 if form == 'ducts-reversed' and sk in ('multi', 'lf-simple'):
@@ -526,7 +529,7 @@ def run_sweep(c):
     V = r['violations']
     cc = dict(SWEEP_KINDS[c['sweep']], design=c['design'], wall=c['wall'], re='lam',
               fam=['CTD', 'CTD', 'CTD'], power='asym', L=c['L'])
-    scn = c01.build_scn(cc)
+    scn = c01.build_scn(cc, dz_user=(c['L'] / 2400.0 if c.get('fine') else None))
     scn['types']['A']['duct_material'] = 'ss316'
     scn['power']['asm']['1']['fr'] = {'duct': 0.25}
     dsn = scn['types']['A']
